@@ -10,7 +10,7 @@ export CARGO_NET_OFFLINE=true CARGO_TARGET_DIR=/tmp/confirm_target
 git apply "$d/patch.diff" || { echo "CONFIRM: patch does not apply"; exit 1; }
 if cargo test --workspace --offline > /tmp/confirm_suite.log 2>&1; then echo "CONFIRM: existing suite passes with the change: $(grep -c '\.\.\. ok' /tmp/confirm_suite.log) tests ok, $(grep -c 'FAILED' /tmp/confirm_suite.log) failed"; else echo "CONFIRM: existing suite FAILS with the change"; tail -5 /tmp/confirm_suite.log; exit 1; fi
 git apply "$d/demo.diff" || { echo "CONFIRM: demo does not apply"; exit 1; }
-run=$(grep -v '^#' "$d/RUN.txt" | head -1)
+run=$(grep -v "^#" "$d/RUN.txt" | head -1 | sed "s#^cd /tmp/mut/[A-Za-z0-9_]* *&& *##")
 if sh -c "$run" > /tmp/confirm_demo1.log 2>&1; then echo "CONFIRM: demonstration PASSES with the change (bad)"; exit 1; else echo "CONFIRM: demonstration fails with the change (good)"; fi
 git apply -R "$d/patch.diff" || { echo "CONFIRM: cannot revert patch"; exit 1; }
 if sh -c "$run" > /tmp/confirm_demo2.log 2>&1; then echo "CONFIRM: demonstration passes without the change (good)"; else echo "CONFIRM: demonstration FAILS without the change (bad)"; tail -5 /tmp/confirm_demo2.log; exit 1; fi
